@@ -6,9 +6,9 @@ import (
 	"errors"
 	"fmt"
 	"os"
+	"runtime"
 	"sort"
 	"strconv"
-	"strings"
 	"sync"
 	"sync/atomic"
 	"time"
@@ -41,19 +41,43 @@ import (
 // inside), or after c09Cancel: that is the observation behind "promptly".
 // The race action ends the context of a waiting render WHILE it tells a render
 // inside to leave (concurrently, or one a few microseconds after the other).
+//
+// Arriving together.  The volley action starts N renders that call Render at
+// the same instant: their goroutines are parked on one barrier, spinning on a
+// start flag, and released by one store.  ROUNDS (cases with Shapes) repeat the
+// situation many times on the same engine, each round a small history of its
+// own that begins and ends at an empty gate and has its own render numbers
+// (1, 2, ...):
+//   Pre renders are put inside (limit - Pre slots stay free); K > limit - Pre
+//   callers arrive together, so that the free slots are taken and the rest
+//   waits; the contexts of Cancel of the waiting ones are ended while the renders
+//   inside are still held (window "cancel": they must return within c09RSettle);
+//   then the renders inside are told to leave, the remaining waiters get in and
+//   are told to leave as well.
+// The rounds run after the drain of the history and before the refill probe.
+// Rounds with exactly the same record (shape and windows; within a window of a
+// round the reports are sorted by render number) are reported once, with a count.  Cases with rounds are run one at a time, with GOMAXPROCS set
+// to the value the case asks for.
 
 const (
-	c09Settle  = 1000 * time.Millisecond // per action (generous: the machine may be heavily loaded)
-	c09Short   = 100 * time.Millisecond  // after a first timeout in the same history
-	c09Cancel  = 2000 * time.Millisecond // "promptly" for a caller whose context is over (generous)
-	c09Refill  = 3000 * time.Millisecond // final refill probe
-	c09Grace   = 2 * time.Millisecond    // after quiescence: catch stragglers (over-admission)
-	c09Final   = 20 * time.Millisecond   // grace of the probe that ends the history
+	c09Settle = 2000 * time.Millisecond // per action (generous: the machine may be heavily loaded)
+	c09Short  = 100 * time.Millisecond  // after a first timeout in the same history
+	c09Cancel = 2000 * time.Millisecond // "promptly" for a caller whose context is over (generous)
+	c09Refill = 3000 * time.Millisecond // final refill probe
+	c09Grace  = 2 * time.Millisecond    // after quiescence: catch stragglers (over-admission)
+	c09Final  = 20 * time.Millisecond   // grace of the probe that ends the history
+	c09RGrace = 150 * time.Microsecond  // rounds: after the arrival (catch stragglers); no grace elsewhere
+	// rounds: bound of every step, the return of a cancelled waiter included.  There are tens of
+	// thousands of steps per run, and on a machine that is short of memory single threads have been
+	// seen to stand still for more than 3 s.
+	c09RSettle = 10 * time.Second
+	c09MaxCuts = 5 // after so many cases whose rounds were cut short the later cases of the run drive no rounds
 	c09Workers = 16
 )
 
 type c09Action struct {
-	Op      string `json:"op"`                 // start | release | cancel | race | probe
+	Op      string `json:"op"`                 // start | volley | release | cancel | race | probe
+	N       int    `json:"n,omitempty"`        // volley: how many renders arrive together (2..8)
 	Missing bool   `json:"missing"`            // start: render a template that does not exist
 	Pick    int    `json:"pick"`               // release / cancel / race: index into the sorted inside / waiting set (mod size)
 	Outcome string `json:"outcome"`            // release / race: ok | func_error | panic
@@ -64,11 +88,23 @@ type c09Action struct {
 	DelayUs int    `json:"delay_us,omitempty"` // race, order 1 / 2: pause between the two (busy wait, <= 500)
 }
 
+// c09Shape is one kind of round, repeated Reps times (the shapes of a case take turns).
+type c09Shape struct {
+	Pre     int    `json:"pre"`     // renders put inside first (0 .. limit-1)
+	K       int    `json:"k"`       // callers that arrive together
+	Cancel  int    `json:"cancel"`  // waiting callers whose context is ended while the gate is full (<= 0: all)
+	Pick    int    `json:"pick"`    // the first of them: index into the sorted waiting set (mod size), then the following ones
+	Outcome string `json:"outcome"` // way out of the renders inside: ok | func_error | panic
+	Reps    int    `json:"reps"`
+}
+
 type c09Case struct {
 	Cap       int         `json:"cap"`
 	ViaInject bool        `json:"via_inject"` // limit set through Engine.Inject (config value) on an engine built with Init
 	Init      int         `json:"init"`
 	Actions   []c09Action `json:"actions"`
+	Shapes    []c09Shape  `json:"shapes,omitempty"`
+	Procs     int         `json:"procs,omitempty"` // GOMAXPROCS for this case (0: leave it; never above the number of CPUs)
 }
 
 type c09Fin struct {
@@ -92,11 +128,24 @@ type c09Window struct {
 	Returned bool     `json:"returned"` // cancel: every cancelled caller returned within the bound
 }
 
+// c09Round is the record of Count rounds that went exactly alike.
+type c09Round struct {
+	Shape   int         `json:"shape"`
+	Count   int         `json:"count"`
+	First   int         `json:"first"` // number of the first such round (0-based)
+	Windows []c09Window `json:"windows"`
+}
+
 type c09Obs struct {
-	Limit    int         `json:"limit"` // GetRateLimit()
-	Windows  []c09Window `json:"windows"`
-	RefillOK bool        `json:"refill_ok"`
-	Leftover int         `json:"leftover"` // goroutines still blocked when the case ended (diagnostic)
+	Limit     int         `json:"limit"` // GetRateLimit()
+	Windows   []c09Window `json:"windows"`
+	Rounds    []c09Round  `json:"rounds"`
+	RoundsRun int         `json:"rounds_run"`
+	RoundsCut bool        `json:"rounds_cut"` // a round did not go to its end in time: no further rounds
+	RoundsOff bool        `json:"rounds_off"` // no rounds driven: c09MaxCuts earlier cases of this run had theirs cut short
+	Procs     int         `json:"procs"`      // GOMAXPROCS while the case ran
+	RefillOK  bool        `json:"refill_ok"`
+	Leftover  int         `json:"leftover"` // goroutines still blocked when the case ended (diagnostic)
 }
 
 type c09Render struct {
@@ -172,8 +221,12 @@ type c09Log struct {
 	class string
 }
 
+var c09Cuts int32 // cases of this run whose rounds were cut short
+
 type c09Hist struct {
 	mu      sync.Mutex
+	idx     int  // 0: the history; i > 0: the i-th round
+	alone   bool // no other case runs beside this one: renders that are to arrive together may spin without yielding
 	cap     int
 	renders map[int]*c09Render
 	log     []c09Log
@@ -191,23 +244,47 @@ func init() {
 		}
 		out := make([]c09Obs, len(cases))
 		errs := make([]error, len(cases))
+		one := func(i int) {
+			defer func() {
+				if r := recover(); r != nil {
+					errs[i] = fmt.Errorf("driver panic: %v", r)
+				}
+			}()
+			out[i], errs[i] = runC09(cases[i])
+		}
+		// cases without rounds: side by side
 		sem := make(chan struct{}, c09Workers)
 		var wg sync.WaitGroup
 		for i := range cases {
+			if len(cases[i].Shapes) > 0 {
+				continue
+			}
 			wg.Add(1)
 			sem <- struct{}{}
 			go func(i int) {
 				defer wg.Done()
 				defer func() { <-sem }()
-				defer func() {
-					if r := recover(); r != nil {
-						errs[i] = fmt.Errorf("driver panic: %v", r)
-					}
-				}()
-				out[i], errs[i] = runC09(cases[i])
+				one(i)
 			}(i)
 		}
 		wg.Wait()
+		// cases with rounds: one at a time, the processors to themselves
+		for i := range cases {
+			if len(cases[i].Shapes) == 0 {
+				continue
+			}
+			prev := 0
+			if p := cases[i].Procs; p > 0 {
+				if p > runtime.NumCPU() {
+					p = runtime.NumCPU()
+				}
+				prev = runtime.GOMAXPROCS(p)
+			}
+			one(i)
+			if prev > 0 {
+				runtime.GOMAXPROCS(prev)
+			}
+		}
 		for i, err := range errs {
 			if err != nil {
 				return nil, fmt.Errorf("case %d: %w", i, err)
@@ -224,11 +301,36 @@ func (h *c09Hist) signal() {
 	}
 }
 
+// c09Router hands the calls of the template function to the history / round they belong to.
+type c09Router struct {
+	mu    sync.Mutex
+	hists map[int]*c09Hist
+}
+
+func (rt *c09Router) add(h *c09Hist) {
+	rt.mu.Lock()
+	rt.hists[h.idx] = h
+	rt.mu.Unlock()
+}
+
+func (rt *c09Router) drop(h *c09Hist) {
+	rt.mu.Lock()
+	delete(rt.hists, h.idx)
+	rt.mu.Unlock()
+}
+
 // gate is the template function: report entry, wait for the verdict of the driver.
-func (h *c09Hist) gate(id interface{}) (interface{}, error) {
-	rid, err := strconv.Atoi(strings.TrimPrefix(fmt.Sprint(id), "r"))
-	if err != nil {
+// id = "h<history>r<render>".
+func (rt *c09Router) gate(id interface{}) (interface{}, error) {
+	var hi, rid int
+	if _, err := fmt.Sscanf(fmt.Sprint(id), "h%dr%d", &hi, &rid); err != nil {
 		return nil, fmt.Errorf("gate: bad id %v", id)
+	}
+	rt.mu.Lock()
+	h := rt.hists[hi]
+	rt.mu.Unlock()
+	if h == nil {
+		return nil, fmt.Errorf("gate: unknown id %v", id)
 	}
 	h.mu.Lock()
 	r := h.renders[rid]
@@ -249,7 +351,16 @@ func (h *c09Hist) gate(id interface{}) (interface{}, error) {
 	return "x", nil
 }
 
-func (h *c09Hist) start(e renderer, missing bool, kind string, k int) *c09Render {
+// c09Barrier parks the goroutines of renders that are to call Render at the same
+// instant: each reports ready and spins on the flag (yielding the processor only
+// when there are not enough processors for all of them to spin).
+type c09Barrier struct {
+	flag  int32
+	ready sync.WaitGroup
+	yield bool
+}
+
+func (h *c09Hist) start(e renderer, missing bool, kind string, k int, bar *c09Barrier) *c09Render {
 	r := &c09Render{missing: missing, cmd: make(chan string, 1)}
 	var ctx context.Context
 	switch kind {
@@ -278,8 +389,26 @@ func (h *c09Hist) start(e renderer, missing bool, kind string, k int) *c09Render
 	if missing {
 		name = "nosuch"
 	}
-	data := map[string]interface{}{"id": "r" + strconv.Itoa(rid)}
+	data := map[string]interface{}{"id": "h" + strconv.Itoa(h.idx) + "r" + strconv.Itoa(rid)}
 	go func() {
+		if bar != nil {
+			bar.ready.Done()
+			// spin; when the start does not come (a loaded machine: somebody has not got a
+			// processor yet) stop burning the processors the others need
+			t0 := time.Now()
+			for i := 1; atomic.LoadInt32(&bar.flag) == 0; i++ {
+				if bar.yield {
+					runtime.Gosched()
+				}
+				if i%4096 == 0 {
+					if d := time.Since(t0); d > 20*time.Millisecond {
+						time.Sleep(100 * time.Microsecond)
+					} else if d > 2*time.Millisecond {
+						runtime.Gosched()
+					}
+				}
+			}
+		}
 		res := e(ctx, name, data)
 		h.mu.Lock()
 		r.finished = true
@@ -289,6 +418,20 @@ func (h *c09Hist) start(e renderer, missing bool, kind string, k int) *c09Render
 		h.signal()
 	}()
 	return r
+}
+
+// startTogether starts n renders (live contexts) whose Render calls begin at the same instant.
+func (h *c09Hist) startTogether(e renderer, n int) (rs []*c09Render, ids []int) {
+	bar := &c09Barrier{yield: !h.alone || n >= runtime.GOMAXPROCS(0)}
+	bar.ready.Add(n)
+	for i := 0; i < n; i++ {
+		r := h.start(e, false, "", 0, bar)
+		rs = append(rs, r)
+		ids = append(ids, r.rid)
+	}
+	bar.ready.Wait()
+	atomic.StoreInt32(&bar.flag, 1)
+	return
 }
 
 type renderer func(ctx context.Context, name string, data interface{}) renderResult
@@ -318,7 +461,7 @@ func (h *c09Hist) quiescent() bool {
 // settle waits until pred (evaluated under the lock) holds or the timeout passes,
 // then a grace period; it reports whether pred held.
 func (h *c09Hist) settle(pred func() bool, timeout, grace time.Duration) bool {
-	if h.stalled && timeout == c09Settle {
+	if h.stalled && (timeout == c09Settle || timeout == c09RSettle) {
 		timeout = c09Short
 	}
 	deadline := time.Now().Add(timeout)
@@ -450,8 +593,14 @@ func runC09(c c09Case) (obs c09Obs, err error) {
 	if err := writeTree(dir, map[string]string{"template/page/g.ast.json": ast}); err != nil {
 		return obs, err
 	}
-	h := &c09Hist{cap: c.Cap, renders: map[int]*c09Render{}, wake: make(chan struct{}, 1), next: 1}
-	extra := map[string]flamingo.TemplateFunc{"gate": tplFunc{h.gate}}
+	rt := &c09Router{hists: map[int]*c09Hist{}}
+	newHist := func(idx int) *c09Hist {
+		h := &c09Hist{idx: idx, alone: len(c.Shapes) > 0, cap: c.Cap, renders: map[int]*c09Render{}, wake: make(chan struct{}, 1), next: 1}
+		rt.add(h)
+		return h
+	}
+	h := newHist(0)
+	extra := map[string]flamingo.TemplateFunc{"gate": tplFunc{rt.gate}}
 	n := c.Cap
 	if c.ViaInject {
 		n = c.Init
@@ -467,6 +616,8 @@ func runC09(c c09Case) (obs c09Obs, err error) {
 		return obs, fmt.Errorf("load failed: %s %s", cls, msg)
 	}
 	obs.Limit = e.GetRateLimit()
+	obs.Procs = runtime.GOMAXPROCS(0)
+	obs.Rounds = []c09Round{}
 	render := func(ctx context.Context, name string, data interface{}) renderResult {
 		return safeRender(e, ctx, name, data)
 	}
@@ -512,9 +663,19 @@ func runC09(c c09Case) (obs c09Obs, err error) {
 			if kind != "cancelled" && kind != "expired" && kind != "at" {
 				kind = ""
 			}
-			r := h.start(render, a.Missing, kind, a.K)
+			r := h.start(render, a.Missing, kind, a.K, nil)
 			ok := h.settle(h.quiescent, c09Settle, c09Grace)
 			add(h.window(c09Window{Phase: "history", Op: "start", Rids: []int{r.rid}, Missing: a.Missing, Ctx: kind}, ok))
+		case op == "volley":
+			n := a.N
+			if n < 2 {
+				n = 2
+			} else if n > 8 {
+				n = 8
+			}
+			_, ids := h.startTogether(render, n)
+			ok := h.settle(h.quiescent, c09Settle, c09Grace)
+			add(h.window(c09Window{Phase: "history", Op: "start", Rids: ids}, ok))
 		case op == "race":
 			d := time.Duration(a.DelayUs) * time.Microsecond
 			if d < 0 || d > 500*time.Microsecond {
@@ -603,6 +764,51 @@ func runC09(c c09Case) (obs c09Obs, err error) {
 		add(w)
 	}
 
+	// ---- rounds: callers that arrive together, again and again on the same engine
+	var dirty []*c09Hist
+	if len(c.Shapes) > 0 && atomic.LoadInt32(&c09Cuts) >= c09MaxCuts {
+		obs.RoundsOff = true
+	} else if len(c.Shapes) > 0 && !h.stalled && len(stuck) == 0 {
+		left := make([]int, len(c.Shapes))
+		total := 0
+		for i, sh := range c.Shapes {
+			if sh.Reps > 0 && sh.Reps <= 5000 {
+				left[i] = sh.Reps
+				total += sh.Reps
+			}
+		}
+		seen := map[string]int{}
+		for n := 0; n < total && !obs.RoundsCut; {
+			for i := range c.Shapes {
+				if left[i] == 0 || obs.RoundsCut {
+					continue
+				}
+				left[i]--
+				rh := newHist(n + 1)
+				ws, clean := runC09Round(rh, render, c.Shapes[i])
+				key, _ := json.Marshal(struct {
+					S int
+					W []c09Window
+				}{i, ws})
+				if j, ok := seen[string(key)]; ok {
+					obs.Rounds[j].Count++
+				} else {
+					seen[string(key)] = len(obs.Rounds)
+					obs.Rounds = append(obs.Rounds, c09Round{Shape: i, Count: 1, First: n, Windows: ws})
+				}
+				n++
+				obs.RoundsRun = n
+				if clean {
+					rt.drop(rh)
+				} else {
+					dirty = append(dirty, rh)
+					obs.RoundsCut = true
+					atomic.AddInt32(&c09Cuts, 1)
+				}
+			}
+		}
+	}
+
 	// ---- refill probe: limit fresh renders must all get past the gate together
 	// (limit disabled: three fresh renders, none may wait)
 	k := c.Cap
@@ -612,7 +818,7 @@ func runC09(c c09Case) (obs c09Obs, err error) {
 	var fresh []*c09Render
 	var freshIds []int
 	for i := 0; i < k; i++ {
-		r := h.start(render, false, "", 0)
+		r := h.start(render, false, "", 0, nil)
 		fresh = append(fresh, r)
 		freshIds = append(freshIds, r.rid)
 	}
@@ -629,6 +835,14 @@ func runC09(c c09Case) (obs c09Obs, err error) {
 	obs.RefillOK = ok
 
 	// ---- cleanup (not part of the observation)
+	for _, x := range append([]*c09Hist{h}, dirty...) {
+		obs.Leftover += x.cleanup()
+	}
+	return obs, nil
+}
+
+// cleanup lets everything out that is still there and reports how many goroutines stay blocked.
+func (h *c09Hist) cleanup() (leftover int) {
 	h.mu.Lock()
 	var all []*c09Render
 	for _, r := range h.renders {
@@ -637,6 +851,9 @@ func runC09(c c09Case) (obs c09Obs, err error) {
 		}
 	}
 	h.mu.Unlock()
+	if len(all) == 0 {
+		return 0
+	}
 	for _, r := range all {
 		h.tell(r, "ok")
 	}
@@ -651,9 +868,122 @@ func runC09(c c09Case) (obs c09Obs, err error) {
 	h.mu.Lock()
 	for _, r := range all {
 		if !r.finished {
-			obs.Leftover++
+			leftover++
 		}
 	}
 	h.mu.Unlock()
-	return obs, nil
+	return leftover
+}
+
+// runC09Round drives one round on its own history record (render numbers from 1);
+// clean = everything went to its end within the bounds and nothing is left behind.
+func runC09Round(h *c09Hist, render renderer, sh c09Shape) (ws []c09Window, clean bool) {
+	add := func(w c09Window) {
+		// rounds that differ only in the order of reports within a window are the same round
+		sort.Ints(w.Entered)
+		sort.Slice(w.Finished, func(i, j int) bool { return w.Finished[i].Rid < w.Finished[j].Rid })
+		ws = append(ws, w)
+	}
+	oc := sh.Outcome
+	if oc != "func_error" && oc != "panic" {
+		oc = "ok"
+	}
+	pre, k := sh.Pre, sh.K
+	if pre < 0 || h.cap == 0 {
+		pre = 0
+	}
+	if h.cap > 0 && pre > h.cap-1 {
+		pre = h.cap - 1
+	}
+	if k < 1 {
+		k = 1
+	} else if k > 16 {
+		k = 16
+	}
+	if pre > 0 {
+		rs, ids := h.startTogether(render, pre)
+		allIn := func() bool {
+			for _, r := range rs {
+				if !r.entered {
+					return false
+				}
+			}
+			return true
+		}
+		ok := h.settle(allIn, c09RSettle, 0)
+		add(h.window(c09Window{Phase: "round", Op: "start", Rids: ids}, ok))
+	}
+	// the arrival
+	_, ids := h.startTogether(render, k)
+	ok := h.settle(h.quiescent, c09RSettle, c09RGrace)
+	add(h.window(c09Window{Phase: "round", Op: "start", Rids: ids}, ok))
+	// contexts of waiting callers end while the renders inside are held
+	h.mu.Lock()
+	_, waiting := h.sets()
+	var targets []*c09Render
+	var tids []int
+	if n := len(waiting); n > 0 {
+		cn := sh.Cancel
+		if cn <= 0 || cn > n {
+			cn = n
+		}
+		p := sh.Pick
+		if p < 0 {
+			p = -p
+		}
+		for j := 0; j < cn; j++ {
+			id := waiting[(p+j)%n]
+			targets = append(targets, h.renders[id])
+			tids = append(tids, id)
+		}
+	}
+	h.mu.Unlock()
+	if len(targets) > 0 {
+		for _, r := range targets {
+			r.end()
+		}
+		ok := h.settle(h.allFinished(targets), c09RSettle, 0)
+		w := h.window(c09Window{Phase: "round", Op: "cancel", Rids: tids}, ok)
+		w.Returned = ok
+		add(w)
+	}
+	// everybody out, the ordinary way
+	for round := 0; round < pre+k+2; round++ {
+		h.mu.Lock()
+		inside, _ := h.sets()
+		var rs []*c09Render
+		for _, id := range inside {
+			rs = append(rs, h.renders[id])
+		}
+		h.mu.Unlock()
+		if len(rs) == 0 {
+			break
+		}
+		for _, r := range rs {
+			h.tell(r, oc)
+		}
+		done := h.allFinished(rs)
+		ok := h.settle(func() bool { return done() && h.quiescent() }, c09RSettle, 0)
+		add(h.window(c09Window{Phase: "round", Op: "drain", Rids: inside, Outcome: oc}, ok))
+	}
+	h.mu.Lock()
+	inside, waiting := h.sets()
+	var stuck []*c09Render
+	for _, id := range waiting {
+		stuck = append(stuck, h.renders[id])
+	}
+	h.mu.Unlock()
+	if len(stuck) > 0 {
+		for _, r := range stuck {
+			r.end()
+		}
+		ok := h.settle(h.allFinished(stuck), c09RSettle, 0)
+		w := h.window(c09Window{Phase: "round", Op: "drain_cancel", Rids: waiting}, ok)
+		w.Returned = ok
+		add(w)
+		h.mu.Lock()
+		inside, waiting = h.sets()
+		h.mu.Unlock()
+	}
+	return ws, !h.stalled && len(inside) == 0 && len(waiting) == 0
 }
